@@ -1,9 +1,13 @@
 (* C10 — decoding accepts only the canonical encoding.  Property theorems only.
-   Proved for the leaf kinds with scoped stream decoding (as the property states for bare integers
-   and booleans).  For composite kinds the accepted language is compared with the model on
-   exhaustive short strings, exhaustive first / last bytes of valid encodings and structure-aware
-   corruptions, and (model-free) accepted => re-encoding reproduces the input. *)
-Require Import RM.Base RM.Tree RM.Types RM.Spec RM.ModelViews RM.ModelCodec RM.CodecBasicProofs.
+   Full statements for EVERY type (any nesting, any hash function):
+   C10_canonical — whenever decoding a byte string with its length as scope succeeds, the input is
+   the specification's encoding of a well-formed value, the returned tree is the one the constructor
+   builds for it, and re-encoding reproduces exactly the input bytes;
+   C10_injective — no two distinct byte strings decode to the same value;
+   C10_language — the accepted strings are exactly the valid encodings (below the 4 GiB offset limit);
+   C10_stream — the scoped stream form: the first `scope` bytes are the encoding, the rest is returned.
+   The leaf-kind theorems are kept. *)
+Require Import RM.Base RM.Tree RM.Types RM.Spec RM.ModelViews RM.ModelCodec RM.CodecBasicProofs RM.SoundProofs.
 Local Open Scope N_scope.
 
 (* whatever is accepted with scope k re-encodes to exactly the k consumed bytes *)
@@ -21,6 +25,36 @@ Proof. exact deser_bool_canonical. Qed.
 Theorem C10_bool_rejects_other : forall H c rest, c <> x00 -> c <> x01 -> exists e, deser_impl H TBool (c :: rest) 1 = Err e.
 Proof. exact deser_bool_rejects. Qed.
 
+Theorem C10_canonical : forall H src t bs n, wf_ty t = true -> decode_bytes H t bs = Ok n ->
+  exists v, wf t v = true /\ bs = ser t v /\ mk H t v = Ok n /\ root H n = htr H t v /\
+            ser_impl H src t n = Ok (bs, lenN bs).
+Proof. intros H src t bs n. exact (decode_bytes_canonical H t bs n src). Qed.
+
+Theorem C10_injective : forall H t bs1 bs2 n, wf_ty t = true ->
+  decode_bytes H t bs1 = Ok n -> decode_bytes H t bs2 = Ok n -> bs1 = bs2.
+Proof. exact decode_bytes_injective. Qed.
+
+Theorem C10_language : forall H t bs, wf_ty t = true -> lenN bs < 2 ^ 32 ->
+  ((exists n, decode_bytes H t bs = Ok n) <-> (exists v, wf t v = true /\ bs = ser t v)).
+Proof. exact accepted_iff_valid. Qed.
+
+Theorem C10_stream : forall H src t s scope n rest, wf_ty t = true ->
+  deser_impl H t s scope = Ok (n, rest) -> scope <= lenN s ->
+  exists v, wf t v = true /\ mk H t v = Ok n /\ s = ser t v ++ rest /\ lenN (ser t v) = scope /\
+            root H n = htr H t v /\ ser_impl H src t n = Ok (ser t v, scope).
+Proof. intros H src t s scope n rest. exact (deser_canonical H t s scope n rest src). Qed.
+
+(* non-vacuity: a gap between the fixed part and the first variable part is rejected, the canonical
+   string is accepted (SHA-free: any H) *)
+Example C10_gap_rejected : forall H,
+  (exists n, decode_bytes H (TContainer [TUint 1; TList (TUint 1) 4]) [x07; x05; x00; x00; x00; x09] = Ok n) /\
+  (exists e, decode_bytes H (TContainer [TUint 1; TList (TUint 1) 4]) [x07; x06; x00; x00; x00; x00; x09] = Err e).
+Proof. intros H. split; vm_compute; eauto. Qed.
+
 Print Assumptions C10_uint_canonical.
+Print Assumptions C10_canonical.
+Print Assumptions C10_injective.
+Print Assumptions C10_language.
+Print Assumptions C10_stream.
 Print Assumptions C10_bool_canonical.
 Print Assumptions C10_bool_rejects_other.
